@@ -28,6 +28,7 @@ type _watcher struct {
 	client client.WatchClient
 
 	resetch chan string
+	retrych chan string
 	evtch   chan chan (<-chan Event)
 
 	log logutil.Log
@@ -42,6 +43,7 @@ func newWatcher(ctx context.Context, log logutil.Log, stopch <-chan struct{}, cl
 	w := &_watcher{
 		client:  client,
 		resetch: make(chan string),
+		retrych: make(chan string),
 		evtch:   make(chan chan (<-chan Event)),
 		log:     log,
 		lc:      lc,
@@ -120,10 +122,19 @@ mainloop:
 		case <-session.done():
 			w.log.Debugf("session done.  retrying version %v in %v", curVersion, watchRetryDelay)
 
+			// keep outch: the controller may be blocked on it, and events it has
+			// not read yet were already accounted for in curVersion
 			session.stop()
 			session = nullWatchSession{}
-			outch = nil
-			retry = w.scheduleRetry(w.resetch, curVersion)
+			retry = w.scheduleRetry(w.retrych, curVersion)
+
+		case vsn := <-w.retrych:
+			w.log.Debugf("reconnecting at version %v", vsn)
+
+			retry = nil
+			session.stop()
+			session = newWatchSession(ctx, w.log, w.client, vsn)
+			curVersion = vsn
 
 		case evt := <-session.events():
 
